@@ -277,6 +277,12 @@ struct Task {
     recv: Option<RecvH>,
 }
 
+fn no_retry(op: &Value) -> Value {
+    let mut o = op.clone();
+    o["retry"] = json!(false);
+    o
+}
+
 fn geti(v: &Value, k: &str, d: i64) -> i64 {
     v.get(k).and_then(|x| x.as_i64()).unwrap_or(d)
 }
@@ -632,7 +638,8 @@ async fn run_task(mut t: Task, ops: Vec<Value>) {
                         Some(Err(e)) => t.done(name, with(write_err(&e), json!({"sid":h.sid,"off":h.woff}))),
                         None => {}
                     },
-                    "write_all" => match await_op!(t, op, name, sx.clone(), h.s.write_all(&data)) {
+                    // not cancel-safe: a dropped write_all / read_to_end is never retried
+                    "write_all" => match await_op!(t, &no_retry(op), name, sx.clone(), h.s.write_all(&data)) {
                         Some(Ok(())) => {
                             t.done(name, json!({"res":"ok","sid":h.sid,"off":h.woff,"n":n}));
                             h.woff += n as u64;
@@ -743,7 +750,7 @@ async fn run_task(mut t: Task, ops: Vec<Value>) {
                             })
                         }
                         _ => {
-                            let r = await_op!(t, op, "read_to_end", sx.clone(), h.r.read_to_end(max));
+                            let r = await_op!(t, &no_retry(op), "read_to_end", sx.clone(), h.r.read_to_end(max));
                             match r {
                                 None => {
                                     h.dirty = true;
